@@ -9,7 +9,7 @@ spec = {
                 "sw":     [0..3, ...],       # disconnectors on line i: 0 none, 1 upstream end, 2 downstream end, 3 both
                 "cust":   [n, ...],          # customers per bus
                 "load":   ["1/20", ...]} ],  # constant active load per customer [MW]
-  "tie":  {"a": [f, b], "b": [f, b]} | None, # backup line between two buses, disconnectors at both ends
+  "tie":  {"a": [f, b], "b": [f, b], "open_at_build": bool} | None, # backup line between two buses, disconnectors at both ends
   "mg":   {"host": [f, b], "mode": "survival|full|limited", "discon": bool, "n": 2, "battery": {...} | None} | None,
   "rep":  "2",                               # default repair time of every line [h]
   "exact": bool                              # build with Fractions (exact-rational runs) or floats
@@ -30,6 +30,22 @@ class FixedDist:
 
     def draw(self, random_instance=None, size=1):
         return [self.v]
+
+
+class SeqRng:
+    """random() returns the listed values first, then 1 (never below a probability)"""
+
+    def __init__(self, values):
+        self.values = list(values)
+
+    def random(self):
+        return self.values.pop(0) if self.values else 1
+
+    def uniform(self, low=0, high=1, size=None):
+        return low + Fraction(1, 2) * (high - low)
+
+    def integers(self, low=0, high=1, size=None):
+        return low
 
 
 class NoFailRng:
@@ -83,7 +99,10 @@ def build(spec):
     if automatic:
         C = MainController(name="C1", ict_node=ict_nodes.get(0) if ict else None,
                            hardware_fail_rate_per_year=float(c.get("hw_rate", 0)), software_fail_rate_per_year=float(c.get("sw_rate", 0)),
-                           manual_sectioning_time=Time(N(c["T"]), TimeUnit.HOUR))
+                           manual_sectioning_time=Time(N(c["T"]), TimeUnit.HOUR),
+                           **({"new_signal_time": Time(N(c["new_signal"]), TimeUnit.HOUR)} if c.get("new_signal") else {}),
+                           **({"p_fail_repair_new_signal": float(c["p_new"])} if c.get("p_new") is not None else {}),
+                           **({"p_fail_repair_reboot": float(c["p_reboot"])} if c.get("p_reboot") is not None else {}))
     else:
         C = ManualMainController(name="C1", sectioning_time=Time(N(c["T"]), TimeUnit.HOUR))
     ps = PowerSystem(C)
@@ -142,7 +161,9 @@ def build(spec):
     for k, t in enumerate(tie_specs):
         a = fb[t["a"][0]][t["a"][1]]; b = fb[t["b"][0]][t["b"][1]]
         tl = mk_line(f"T{k}", a, b)
-        ds = [Disconnector(f"T{k}a", tl, a), Disconnector(f"T{k}b", tl, b)]
+        # a normally-open tie may be described as such when its disconnectors are built (documented constructor argument)
+        kw = {"is_open": True} if t.get("open_at_build") else {}
+        ds = [Disconnector(f"T{k}a", tl, a, **kw), Disconnector(f"T{k}b", tl, b, **kw)]
         equip(tl, ds)
         ties.append((t, tl))
     mg = spec.get("mg")
@@ -228,6 +249,8 @@ def rand_feeder_spec(rng, max_lines=6, ctrl="manual", allow_tie=True, allow_mg=T
         p = feeders[0]["parent"]
         if p[a] != b and p[b] != a:
             tie = {"a": [0, a], "b": [0, b]}
+    if tie is not None and rng.random() < 0.5:
+        tie["open_at_build"] = True
     mg = None
     if allow_mg and rng.random() < 0.5:
         mg = {"host": [0, rng.randrange(len(feeders[0]["parent"]))], "mode": rng.choice(["survival", "full", "limited"]),
